@@ -78,6 +78,10 @@ func Services(g Generator, services map[string]*compile.ServiceSpec) error {
 
 // ServiceFunction generates code for the given function of the given service.
 func ServiceFunction(g Generator, s *compile.ServiceSpec, f *compile.FunctionSpec) error {
+	if err := verifyUniqueExceptionTypes(f); err != nil {
+		return wrapGenerateError(fmt.Sprintf("%s.%s", s.Name, f.Name), err)
+	}
+
 	argsName := functionNamePrefix(s, f) + "Args"
 	argsGen := fieldGroupGenerator{
 		Namespace: NewNamespace(),
@@ -262,6 +266,31 @@ func functionHelper(g Generator, s *compile.ServiceSpec, f *compile.FunctionSpec
 		TemplateFunc("unwrapResponse", functionUnwrapResponse),
 		TemplateFunc("namePrefix", functionNamePrefix),
 	)
+}
+
+// verifyUniqueExceptionTypes verifies that the function does not declare the
+// same exception type more than once.
+//
+// Errors returned by a function are mapped to the fields of its result
+// struct based on their type so two exceptions of the same type cannot be
+// told apart.
+func verifyUniqueExceptionTypes(f *compile.FunctionSpec) error {
+	if f.ResultSpec == nil {
+		return nil
+	}
+
+	used := make(map[compile.TypeSpec]string, len(f.ResultSpec.Exceptions))
+	for _, exc := range f.ResultSpec.Exceptions {
+		t := compile.RootTypeSpec(exc.Type)
+		if conflict, ok := used[t]; ok {
+			return fmt.Errorf(
+				"exceptions %q and %q have the same type %q: "+
+					"a function cannot throw the same exception type more than once",
+				conflict, exc.Name, t.ThriftName())
+		}
+		used[t] = exc.Name
+	}
+	return nil
 }
 
 // functionIsException generates an expression that provides the IsException
